@@ -468,12 +468,20 @@ func c17StressMain(arg string) {
 		x1 := mk(900001)
 		writeAccount(x1)
 		refreshed := make(chan struct{})
-		go func() { _ = ww.Refresh(ctx); close(refreshed) }()
+		go func() {
+			// the caller's own context, ended as soon as the call returns (as `defer cancel()` does): what was
+			// discovered by this call must still reach the listeners
+			rctx, rcancel := context.WithCancel(ctx)
+			_ = ww.Refresh(rctx)
+			rcancel()
+			close(refreshed)
+		}()
 		select {
 		case <-refreshed:
 		case <-time.After(8 * time.Second):
 			problem("deadlock: Refresh did not return within 8s while a registered listener was not yet receiving")
 		}
+		time.Sleep(20 * time.Millisecond)
 		select {
 		case a := <-slow:
 			if a != x1.addr {
@@ -482,13 +490,33 @@ func c17StressMain(arg string) {
 		case <-time.After(8 * time.Second):
 			problem("a listener registered before an address appeared never received it (slow listener)")
 		}
+		// files keep arriving while the wallet is being closed
 		writeAccount(mk(900002)) // nobody receives this one from `slow`: Close must return all the same
 		if p.Listener {
-			time.Sleep(50 * time.Millisecond)
+			time.Sleep(30 * time.Millisecond)
 		} else {
 			go func() { _ = ww.Refresh(ctx) }()
-			time.Sleep(50 * time.Millisecond)
+			time.Sleep(30 * time.Millisecond)
 		}
+		// ... and files keep arriving (and callers keep refreshing / listing) while the wallet is being closed
+		var prepared []acct
+		for q := int64(0); q < 120; q++ {
+			prepared = append(prepared, mk(910000+q))
+		}
+		go func() {
+			for _, a := range prepared {
+				writeAccount(a)
+			}
+		}()
+		for q := 0; q < 3; q++ {
+			go func() {
+				for n := 0; n < 40; n++ {
+					_ = ww.Refresh(ctx)
+					_, _ = ww.GetAccounts(ctx)
+				}
+			}()
+		}
+		time.Sleep(time.Duration(1+r.Intn(8)) * time.Millisecond)
 	}
 	closed := make(chan struct{})
 	t0 := time.Now()
